@@ -247,8 +247,11 @@ impl EventGen for GroupElement {
         let mut new_el = self.0.clone();
         new_el.eval_attributes(context)?;
 
-        // push variables onto the stack
-        context.push_element(&self.0);
+        // push variables onto the stack. Note these are the *evaluated* attributes:
+        // pushing the raw attributes would have any expression in them evaluated
+        // again by every child which reads the variable (e.g. `k="{{random()}}"`
+        // would give each reader a different value).
+        context.push_element(&new_el);
 
         let mut content_bb = None;
         let mut events = OutputList::new();
